@@ -250,6 +250,12 @@ class AncDriver(explore.Driver):
                 st.cfg[sec].pop(key)
                 st.last_edit = key
             elif kind == "read":
+                if st.child is not None:
+                    # also through the child (fills the child's own cache)
+                    try:
+                        np.asarray(st.child[op[1]])
+                    except BaseException:
+                        pass
                 try:
                     return ("val", np.asarray(ds[op[1]]).tobytes())
                 except BaseException as e:
@@ -420,7 +426,19 @@ class AncDriver(explore.Driver):
                               for k, v in ds._usertemp.items()))
         except AttributeError:
             anc, ut = id(st), None
-        return (cfg, anc, ut)
+        ch = None
+        if st.child is not None:
+            try:
+                ch = tuple(sorted(
+                    (k, np.asarray(getattr(v, "_array", None)
+                                   if getattr(v, "_array", None) is not None
+                                   else 0).tobytes())
+                    for k, v in st.child._events.items()
+                    if k not in ("index",) and not isinstance(v, dict)
+                    and hasattr(v, "_array")))
+            except Exception:
+                ch = id(st)
+        return (cfg, anc, ut, ch)
 
 
 # ---------------------------------------------------------------------------
